@@ -60,6 +60,10 @@ theorem reportWt_ok : WtOK reportWt where
   nobt := by
     show ((parseCount "n:nobt" : Nat) : Int) = 0
     rw [parseCount_nobt]; rfl
+  fmterr := by
+    show ((parseCount "n:fmterr" : Nat) : Int) = 0
+    have : parseCount "n:fmterr" = 0 := by decide
+    rw [this]; rfl
   report := fun dr n a _ => by
     show ((parseCount (reportStr dr n a) : Nat) : Int) + (-1) * (n : Int) = 0
     rw [parseCount_reportStr]; omega
